@@ -7,14 +7,15 @@ import common
 from common import coq_list
 
 # objects: names -> numbers used by the model
-NAMES = {'a': 1, 'b': 2, 'p': 3, 'u': 4, 'k': 5, 'sol': 6, 'sf': 7, 'sc': 8}
+NAMES = {'a': 1, 'b': 2, 'p': 3, 'u': 4, 'k': 5, 'sol': 6, 'sf': 7, 'sc': 8, 'a2': 1}     # a2: a second, different object that is also named 'a'
+REAL = {'a2': 'a'}
 STAGES = {'all': 0, 's1': 1, 's2': 2}
-RULE = ('complete enumeration: every call of the 30-call alphabet from every distinct lifecycle state reachable in <= N calls '
+RULE = ('complete enumeration: every call of the 32-call alphabet from every distinct lifecycle state reachable in <= N calls '
         '(N = 4 quick, 6 thorough), one representative path per state; non-trivial = every (state, call) pair; '
         'distinct by (state key, call)')
 
 ALPHABET = [
-    ('uses', ('a',)), ('uses', ('b',)), ('uses', ('p',)), ('uses', ('a', 'b')), ('uses', ('b', 'a', 'p')),
+    ('uses', ('a',)), ('uses', ('b',)), ('uses', ('p',)), ('uses', ('a', 'b')), ('uses', ('b', 'a', 'p')), ('uses', ('b', 'a', 'a2')), ('uses', ('a2',)),
     ('create_container', 'k'), ('create_container', 'a'),
     ('create_solution', 'sol', None), ('create_solution', 'sc', 'a'), ('create_solution', 'sc', 'u'),
     ('create_solution_from', 'a', 'sf'), ('create_solution_from', 'u', 'sf'),
@@ -36,6 +37,7 @@ class World:
             'b': Container('b'),
             'p': Plate('p', '1 mL', rows=2, columns=2),
             'u': Container('u', initial_contents=[(self.water, '5 mL'), (self.salt, '1 mmol')]),
+            'a2': Container('a', initial_contents=[(self.water, '40 mL'), (self.salt, '5 mmol')]),
         }
         self.recipe = Recipe()
         self.created = {}
@@ -168,7 +170,7 @@ def oracle(path, c, out, before, after, baked_keys):
     """the discipline of the property on one (state, call); before/after = observable lifecycle states"""
     fails = []
     locked, cur, nsteps, declared, stages = before
-    names = {v: k for k, v in NAMES.items()}
+    names = {v: k for k, v in NAMES.items() if k not in REAL}      # objects are identified by name
     names[99] = 'renamed'
     decl = {names[x] for x in declared}
     k = c[0]
@@ -188,8 +190,10 @@ def oracle(path, c, out, before, after, baked_keys):
     new = {'create_container': c[1:2], 'create_solution': c[1:2], 'create_solution_from': c[2:3]}.get(k, ())
     if all(o in decl for o in operands) and any(x in decl for x in new) and out[0] == 'ok':
         fails.append(f"{c} creates a second object with an existing name but was accepted")
-    if k == 'uses' and len(set(c[1])) == len(c[1]) and any(x in decl for x in c[1]) and out[0] == 'ok':
-        fails.append(f"{c} declares an existing name again but was accepted")
+    if k == 'uses':
+        nm = [REAL.get(x, x) for x in c[1]]
+        if (len(set(nm)) < len(nm) or any(x in decl for x in nm)) and out[0] == 'ok':
+            fails.append(f"{c} declares a name that exists already (or twice in one call: objects {c[1]} are named {nm}) but was accepted")
     if k == 'start_stage':
         known = {'all'} | {n for n, v in STAGES.items() if any(s[0] == v for s in stages)}
         if (cur != 0 or c[1] in known) and out[0] == 'ok':
